@@ -89,7 +89,26 @@ class Lab:
     def remove(self, m: int):
         sys.modules.pop(self.name(m), None)
 
-    def extract(self):
+    def extract(self, gone=()):
+        """gone: modules that vanish from sys.modules right after the scan has taken its snapshot (forced with a line
+        hook on the scan loop's header: the same effect as an earlier module's glue, or another thread, removing them)."""
+        import linecache
+
+        code = self.gl.add_glue_as_needed.__code__
+        armed = {"on": bool(gone), "fired": False}
+
+        def local(frame, event, arg):
+            if event == "line" and armed["on"]:
+                if "for module_name in module_names" in linecache.getline(code.co_filename, frame.f_lineno):
+                    armed["on"] = False
+                    armed["fired"] = True
+                    for m in gone:
+                        sys.modules.pop(self.name(m), None)
+            return local
+
+        def tracer(frame, event, arg):
+            return local if frame.f_code is code else None
+
         def hook(message, category, filename, lineno, file=None, line=None):
             msg = str(message)
             if issubclass(category, RuntimeWarning) and "Failed to initialize" in msg and PREFIX in msg:
@@ -100,13 +119,23 @@ class Lab:
         with warnings.catch_warnings():
             warnings.simplefilter("always")
             warnings.showwarning = hook
-            st = self.ss.extract(object())
+            if gone:
+                sys.settrace(tracer)
+            try:
+                st = self.ss.extract(object())
+            finally:
+                if gone:
+                    sys.settrace(None)
+        if gone and not armed["fired"]:
+            # the scan did not happen (fast path): the modules vanish anyway, as in the model
+            for m in gone:
+                sys.modules.pop(self.name(m), None)
         with self.lock:
             self.log.append("ret")
         return st
 
 
-def rand_history(rng: random.Random, nmods: int, nops: int) -> dict:
+def rand_history(rng: random.Random, nmods: int, nops: int, vanish: bool = False) -> dict:
     mods = []
     for m in range(nmods):
         k = rng.choice(["mod", "builtin", "both", "neither", "mod", "builtin"])
@@ -124,6 +153,11 @@ def rand_history(rng: random.Random, nmods: int, nops: int) -> dict:
             m = rng.choice(present)
             ops.append(["remove", m])
             present.remove(m)
+        elif r < 0.72 and present and vanish:
+            gone = sorted(set(rng.choice(present) for _ in range(rng.randint(1, 2))))
+            ops.append(["extractR", gone])
+            for m in gone:
+                present.remove(m)
         else:
             ops.append(["extract"])
     ops.append(["extract"])
@@ -133,7 +167,7 @@ def rand_history(rng: random.Random, nmods: int, nops: int) -> dict:
 def len_visible(case) -> bool:
     """LenVisible: between two scans the module set never changes while its size stays the cached one.
     Conservative: no removal at all (the hypothesis of C17_in_time_partial)."""
-    return not any(op[0] == "remove" for op in case["ops"])
+    return not any(op[0] in ("remove", "extractR") for op in case["ops"])
 
 
 class C17(PropCheck):
@@ -143,7 +177,7 @@ class C17(PropCheck):
             "built-in glue, both, neither, raising glue; concurrent: 2-4 threads, a second extraction started while the "
             "first is blocked inside the glue call of each module in turn; non-trivial = some glue ran; distinct = history")
     manifest = {
-        "text": "Lean (sequential): C17_once (over every history of insertions, removals, re-insertions and extractions no module ever has a glue function called twice, nor one of each kind), C17_module_first (built-in glue only runs for modules without their own), C17_raise_only_warns (whether glue raises changes nothing but the inserted warnings: same calls, same order, same bookkeeping), C17_in_time_partial (for histories without removals, when an extraction returns every present module's glue has been dealt with), C17_F4_witness / C17_F4_recovers (the full in-time statement is false: remove one module, add a glue-bearing one — known finding F4). Tie: real call logs of generated histories vs the model; threads entering extract while another scan is blocked inside each glue call are judged by the oracle.",
+        "text": "Lean: C17_once_vanishing / C17_module_first_vanishing (exactly once, never both kinds, module glue first — for every history in which, additionally, any set of modules may vanish from sys.modules while a scan is in progress: the repaired F16), C17_vanishing_conservative (with nothing vanishing the extended scan is the plain one), C17_F16_old_code_witness / C17_F16_repaired; C17_once (over every history of insertions, removals, re-insertions and extractions no module ever has a glue function called twice, nor one of each kind), C17_module_first (built-in glue only runs for modules without their own), C17_raise_only_warns (whether glue raises changes nothing but the inserted warnings: same calls, same order, same bookkeeping), C17_in_time_partial (for histories without removals, when an extraction returns every present module's glue has been dealt with), C17_F4_witness / C17_F4_recovers (the full in-time statement is false: remove one module, add a glue-bearing one — known finding F4). Tie: real call logs of generated histories vs the model; threads entering extract while another scan is blocked inside each glue call are judged by the oracle.",
         "note": "The concurrent half (several threads) is not proved: the model contains the lock and per-thread program counters (SS.Glue.cstep) but only the sequential theorems are established; concurrency is exercised on the real code with glue calls as preemption points. Atomicity of dict.pop under the GIL is assumed.",
     }
     assumptions = ["dict.pop and len() are atomic under the GIL", "fake modules stand for real library modules"]
@@ -156,6 +190,11 @@ class C17(PropCheck):
         n = 250 if tier == "quick" else 3000
         for _ in range(n):
             out.append(rand_history(rng, rng.randint(1, 8), rng.randint(2, 30)))
+        for _ in range(n // 2):
+            out.append(rand_history(rng, rng.randint(2, 8), rng.randint(4, 30), vanish=True))
+        # the F16 shape: a module with both kinds of glue vanishes during the scan and comes back
+        out.append({"k": "seq", "mods": [[0, False, False, False, False], [1, True, True, False, False], [2, False, False, False, False]],
+                    "ops": [["insert", 0], ["insert", 1], ["extractR", [1]], ["insert", 1], ["insert", 2], ["extract"]]})
         # concurrency: for each module position, block its glue and start other extractions
         m = 25 if tier == "quick" else 200
         for _ in range(m):
@@ -182,6 +221,8 @@ class C17(PropCheck):
                     lab.insert(op[1])
                 elif op[0] == "remove":
                     lab.remove(op[1])
+                elif op[0] == "extractR":
+                    lab.extract(gone=op[1])
                 else:
                     lab.extract()
             return " ".join(lab.log)
@@ -264,7 +305,7 @@ class C17(PropCheck):
                 if op[0] == "insert":
                     if op[1] not in present:
                         present.append(op[1])
-                elif op[0] == "extract":
+                elif op[0] in ("extract", "extractR"):
                     # advance to the next 'ret'
                     while pos < len(log) and log[pos] != "ret":
                         pos += 1
@@ -302,7 +343,8 @@ class C17(PropCheck):
         return None
 
     def stats(self, cases, reals):
-        d = {"sequential": 0, "concurrent": 0, "with_removal": 0, "warnings": 0, "glue_calls": 0}
+        d = {"sequential": 0, "concurrent": 0, "with_removal": 0, "warnings": 0, "glue_calls": 0,
+             "with_vanishing_modules": sum(any(op[0] == "extractR" for op in c.get("ops", [])) for c in cases)}
         for c, r in zip(cases, reals):
             if c["k"] == "seq":
                 d["sequential"] += 1
